@@ -291,6 +291,50 @@ def max_digit_run(data: bytes) -> int:
     return best
 
 
+PICKLE_MEMO_INDEX_MAX = 100_000
+
+
+def pickle_put_index_max(data: bytes) -> int:
+    """largest memo index written by a PUT / BINPUT / LONG_BINPUT opcode in the opcode stream of `data` (scanned with
+    pickletools up to the first malformed opcode; pickle has no jumps, so the unpickler executes a prefix of this stream).
+
+    CPython's C unpickler keeps its memo in an array and resizes it to 2*index entries: b"N" + b"r" + 4 index bytes makes
+    it allocate and clear up to 32 GiB.  That is a resource bomb inside the stdlib unpickler (the PickleSerializer
+    documentation refers to pickle's security considerations), not a parsing property of this library; inputs above
+    PICKLE_MEMO_INDEX_MAX are kept away from the C unpickler."""
+    import pickletools
+
+    best = 0
+    try:
+        for op, arg, _pos in pickletools.genops(data):
+            if op.name in ("PUT", "BINPUT", "LONG_BINPUT") and isinstance(arg, int) and arg > best:
+                best = arg
+    except Exception:  # noqa: BLE001  (malformed tail: the unpickler stops there too)
+        pass
+    return best
+
+
+def pickle_policy(spec: dict) -> dict:
+    """Pickle serializers nested inside a wrapper get the pure-Python restricted unpickler (their bytes only exist after
+    the wrapper decoded them, so they cannot be scanned beforehand); a top-level Pickle serializer keeps the C one and
+    its inputs are scanned with pickle_put_index_max."""
+    k = spec["kind"]
+    if k == "stapled":
+        return dict(spec, sent=pickle_policy(spec["sent"]), recv=pickle_policy(spec["recv"]))
+    if k in ("base64", "zlib", "bz2"):
+        inner = spec["inner"]
+        if inner["kind"] == "pickle":
+            return dict(spec, inner=dict(inner, restricted="py"))
+        return spec
+    return spec
+
+
+def scans_as_pickle(spec: dict) -> bool:
+    """True if input bytes go straight to the C unpickler (top-level Pickle, or both halves of a stapled one)"""
+    s = recv_spec(spec)
+    return s["kind"] == "pickle" and s.get("restricted") != "py"
+
+
 def scale_parts(parts: list, num: int, den: int) -> list:
     return [[u, max(1, (c * num) // den) if c > 1 else c] for u, c in parts]
 
